@@ -183,7 +183,7 @@ impl List {
   /// which it will have just allocated
   fn ensure_capacity(&mut self, needed: usize, cap: usize, hooks: &GcHooks) -> List {
     if needed > cap {
-      self.grow(cap, cap * 2, hooks)
+      self.grow(cap, needed.max(cap * 2), hooks)
     } else {
       *self
     }
